@@ -2,7 +2,7 @@
 From Coq Require Import NArith Bool List.
 Import ListNotations.
 From XetModel Require Import Base.Codec Gen.ShardLayout Model.Merkle Model.Shard Model.Crash Proofs.SetOpProofs Proofs.SetOpSortedProofs.
-From XetModel Require Import Proofs.CodecProofs Proofs.ShardWholeProofs Proofs.ShardDedupWholeProofs Proofs.MergeProofs Proofs.MergeAllProofs.
+From XetModel Require Import Proofs.CodecProofs Proofs.ShardWholeProofs Proofs.ShardDedupWholeProofs Proofs.ShardProofs Proofs.MergeProofs Proofs.MergeAllProofs Proofs.MergeResegProofs.
 Open Scope N_scope.
 
 (* keys are the four u64 words the code orders and compares by *)
@@ -87,6 +87,22 @@ Theorem C10_merge_all_covers_inputs : forall (g : list (fname * sshard)) acc m, 
   forall x, shard_recs (ss_bytes acc) x \/ (exists n s, In (n, s) g /\ shard_recs (ss_bytes s) x) -> shard_recs m x.
 Proof. exact merge_all_covers_inputs. Qed.
 
+(* known finding K2, on the model's side: two well-formed records of one file whose segment lists differ -- the same bytes
+   deduplicated differently by two sessions -- merge into a record that is not well-formed: the segments of one, the
+   verification entries of the other (two segments, three verification entries).  On disk (shard_set_union's Merge branch)
+   when the first carries only the metadata extension and the second only verification entries; in memory
+   (MDBFileInfo::merge_from) whenever the kept record lacks verification entries and the other has them.  The theorems above
+   speak of unions that are well-formed shards (ShardOk), which excludes this; the implementation, run on such pairs, loses
+   records (stream c10, resegmented-* cases; debug builds stop at the assertion that states the assumption). *)
+Theorem C10_merge_of_resegmented_records_refuted :
+  wf_file k2_a /\ wf_file k2_b /\ fi_hash k2_a = fi_hash k2_b /\
+  length (fi_segs (merge_disk k2_a k2_b)) = 2%nat /\ length (fi_verif (merge_disk k2_a k2_b)) = 3%nat /\ ~ wf_file (merge_disk k2_a k2_b).
+Proof. exact merge_of_resegmented_records_refuted. Qed.
+Theorem C10_merge_from_of_resegmented_records_refuted :
+  wf_file k2_c /\ wf_file k2_b /\ fi_hash k2_c = fi_hash k2_b /\
+  length (fi_segs (merge_from k2_c k2_b)) = 2%nat /\ length (fi_verif (merge_from k2_c k2_b)) = 3%nat /\ ~ wf_file (merge_from k2_c k2_b).
+Proof. exact merge_from_of_resegmented_records_refuted. Qed.
+
 Print Assumptions C10_union_file_keys.
 Print Assumptions C10_union_file_records.
 Print Assumptions C10_difference_files_exact.
@@ -96,3 +112,5 @@ Print Assumptions C10_merge_of_serialized_shards.
 Print Assumptions C10_merge_covers_inputs.
 Print Assumptions C10_merge_invents_nothing.
 Print Assumptions C10_merge_all_covers_inputs.
+Print Assumptions C10_merge_of_resegmented_records_refuted.
+Print Assumptions C10_merge_from_of_resegmented_records_refuted.
